@@ -186,7 +186,11 @@ where
     // Dispatch by method
     let result = match options.method {
         Method::RK4 => {
-            let h = options.first_step.unwrap_or_else(|| (xend - x0) / 100.0);
+            // first_step is a size, as for the adaptive methods: RK4 takes it with the sign of the direction
+            let h = options
+                .first_step
+                .map(|h| h.abs() * (xend - x0).signum())
+                .unwrap_or_else(|| (xend - x0) / 100.0);
             let solver = RK4::builder()
                 .max_steps(options.max_steps.unwrap_or(usize::MAX))
                 .build();
